@@ -87,6 +87,7 @@ func (s *vStoreSys) Reset() {
 	s.unexplainedDrop = ""
 	s.preObsKey = ""
 	var err error
+	vStoreSessionNo = 1
 	s.st, err = s.env.open(s.cfg.config())
 	if err != nil || s.env.dead != "" {
 		// opening a fresh, unowned directory must succeed: a violation, not a harness failure
@@ -453,6 +454,7 @@ func (s *vStoreSys) Apply(op vOp, hist []vOp, check bool) {
 		}
 		s.session++
 		// reopen with FRESH templates
+		vStoreSessionNo = s.session
 		s.st, err = s.env.open(s.cfg.config())
 		if s.env.dead == "" && err != nil {
 			if check {
@@ -488,6 +490,9 @@ func (s *vStoreSys) Apply(op vOp, hist []vOp, check bool) {
 			// end-of-history observation = full Q (on a state that the next BFS level re-creates)
 			for _, q := range vStoreQueries(s.cfg.Tmpl) {
 				s.search(h(), q)
+			}
+			if strings.HasPrefix(s.cfg.Vec, "ivf") {
+				s.search(h(), 8)
 			}
 		}
 	}
@@ -667,6 +672,12 @@ func vC09Cfgs(tier string) []vStoreCfg {
 				out = append(out, vStoreCfg{Mem: mem, Thr: 1, Comp: 5, Tmpl: tm, Vec: vec})
 			}
 		}
+	}
+	// IVF templates trained differently in every session (one large memtable: one segment per
+	// session boundary)
+	out = append(out, vStoreCfg{Mem: 2, Thr: 1, Comp: 5, Tmpl: "v", Vec: "ivfalt"})
+	if tier == "thorough" {
+		out = append(out, vStoreCfg{Mem: 0, Thr: 1, Comp: 5, Tmpl: "vtm", Vec: "ivfalt"})
 	}
 	return out
 }
